@@ -52,6 +52,7 @@ var bagOps = []string{
 	"write-fasta", "write-sequences", "string", "charstats", "uniquechars", "charstatsseq", "identical",
 	"detectalphabet", "maxnamelength", "alphabetchars", "pwalign", "longestorf", "clonebag", "unalign",
 	"iterate", "sequences", "seqchan", "getters", "seq-queries", "seq-clone", "seq-mutations",
+	"samplebag", "rarefybag",
 }
 
 // operations of alignments only
@@ -60,7 +61,7 @@ var alignOps = []string{
 	"charstatssite", "maxcharstats", "entropy", "avgalleles", "nbvariable", "informative", "pssm",
 	"conservation", "countdiffs", "numgapsunique", "nummutunique", "frameshifts", "refcoords", "refsites",
 	"invcoords", "invpositions", "countprofile", "consensus", "subalign", "selectsites", "transpose",
-	"bootstrap", "clone", "split", "randsubalign",
+	"bootstrap", "clone", "split", "randsubalign", "sample", "rarefy",
 }
 
 var ntOps = []string{"phase", "seq-translate"}    // nucleotide containers
@@ -566,6 +567,33 @@ func runQuery(test string, c qCase, o qop, sb align.SeqBag) (res queryResult) {
 		errOK(e)
 	case "randsubalign":
 		_, e := al.RandSubAlign(o.I, o.B1)
+		errOK(e)
+	// the samplers share row slices with their source (ownership is not claimed for them) but
+	// must leave it unchanged, row order included, like every operation producing a new object
+	case "sample":
+		_, e := al.Sample(1 + mod(o.I, n+1))
+		errOK(e)
+	case "samplebag":
+		_, e := sb.SampleSeqBag(1 + mod(o.I, n+1))
+		errOK(e)
+	case "rarefy", "rarefybag":
+		counts := map[string]int{}
+		total := 0
+		for i, r := range c.Ali.Rows {
+			if v := (i + mod(o.K, 4)) % 4; v > 0 {
+				counts[r.Name] = v
+				total += v
+			}
+		}
+		if o.B1 {
+			counts["nosuch"] = 1
+		}
+		var e error
+		if o.Op == "rarefy" {
+			_, e = al.Rarefy(mod(o.J, total+2), counts)
+		} else {
+			_, e = sb.RarefySeqBag(mod(o.J, total+2), counts)
+		}
 		errOK(e)
 	case "codonalign":
 		nt := ntFor(c.Ali, o.Seed, false)
